@@ -27,19 +27,23 @@ variable (specs : Nat → LeafSpec)
 
 /-! ### 1. co_await: value / error / done -/
 
-/-- `co_await` of a sender that completes with a value inside start() (no scheduler hop): the coroutine
-    continues with the next statement, having received exactly that value -/
+/-- `co_await` of a sender that completes with a value inside start(): the coroutine continues with the next
+    statement, having received exactly that value (a non-affine sender first makes its `schedule()` on
+    the task's scheduler, which — inline scheduler — completes at once) -/
 theorem await_value (s : St) (fr : Frame) (rest : List Frame) (i v : Nat) (t : Bool) (k : Prog) (a : Bool)
     (hc : s.ctl = .exec) (hf : s.frames = fr :: rest) (hk : fr.kont = .await i t :: k)
     (hs : specs i = ⟨.inline (.value v), a⟩) (hh : a = true ∨ s.inlineSched = true) :
     iter specs 2 s =
       { s with frames := { fr with kont := k, catching := t, acc := fr.acc + v } :: rest, ctl := .exec,
-               outs := s.outs ++ [.leafStart i s.srcStopped] } := by
-  have h1 : step specs s = { emit { s with frames := { fr with kont := k, catching := t } :: rest } (.leafStart i s.srcStopped) with ctl := .resume (.value v) } := by
-    rcases hh with hh | hh <;> simp [step, hc, hf, execStep, hk, hs, leafDone, hh, emit]
+               outs := s.outs ++ (if a then [.leafStart i s.srcStopped] else [.leafStart i s.srcStopped, .sched fr.sched]) } := by
+  have h1 : step specs s = { s with frames := { fr with kont := k, catching := t } :: rest, ctl := .resume (.value v), outs := s.outs ++ (if a then [.leafStart i s.srcStopped] else [.leafStart i s.srcStopped, .sched fr.sched]) } := by
+    cases a
+    · have hi : s.inlineSched = true := by simpa using hh
+      simp [step, hc, hf, execStep, hk, hs, leafDone, schedHop, hi, emit]
+    · simp [step, hc, hf, execStep, hk, hs, leafDone, emit]
   show iter specs 1 (step specs s) = _
   rw [h1]
-  simp [iter, step, resumeStep, emit]
+  simp [iter, step, resumeStep]
 
 /-- the value arrives the same way when the sender completes later (any external completion event):
     the coroutine that is resumed with a value adds it and goes on -/
@@ -101,16 +105,16 @@ theorem done_unwinds_to_receiver : ∀ (fs : List Frame) (s : St), s.ctl = .exit
     co_return value as set_value, its escaped exception as set_error, done as set_done — **after exactly
     the spec's cleanup actions in the spec's order** (children before parents, each frame's own cleanups
     in reverse registration order).  For every program, every leaf script, both scheduler modes. -/
-theorem task_as_sender_outcome (p : Prog) (inl : Bool) (hI : progInline specs inl p = true) :
-    let s := deliver specs .start (St.init p inl)
+theorem task_as_sender_outcome (p : Prog) (inl st : Bool) (hI : progInline specs inl p = true) :
+    let s := deliver specs .start (St.init p inl st)
     s.ctl = .finished ∧ rootTrace s.outs = [(evalProg specs false p).1] ∧
       cleanupTrace s.outs = (evalProg specs false p).2 := by
   intro s
-  have hs : s = onStart specs { St.init p inl with rootStopped := false } := by
-    show deliver specs .start (St.init p inl) = _
+  have hs : s = onStart specs { St.init p inl st with rootStopped := false } := by
+    show deliver specs .start (St.init p inl st) = _
     simp [deliver, St.init]
   rw [hs]
-  exact start_inline specs p inl false (Or.inl rfl) hI
+  exact start_inline specs p inl st false (Or.inl rfl) hI
 
 /-- the same when stop was requested before start() (inline scheduler): `stop_if_requested` then cancels -/
 theorem task_as_sender_outcome_stopped (p : Prog) (hI : progInline specs true p = true) :
@@ -122,7 +126,7 @@ theorem task_as_sender_outcome_stopped (p : Prog) (hI : progInline specs true p 
     show runEvents specs (St.init p true) [.stop, .start] = _
     simp [runEvents, deliver, onStop, St.init, Ctl.callbackRegistered]
   rw [hs]
-  exact start_inline specs p true true (Or.inr rfl) hI
+  exact start_inline specs p true true true (Or.inr rfl) hI
 
 /-- what the spec says about the three ways a body ends and about cleanups (readable without the model) -/
 theorem evalProg_examples :
@@ -138,7 +142,7 @@ theorem evalProg_examples :
 theorem registration_is_lifo (s : St) (fr : Frame) (rest : List Frame) (a l : Nat) (k : Prog)
     (hc : s.ctl = .exec) (hf : s.frames = fr :: rest) (hk : fr.kont = .atExit a l :: k) :
     step specs s =
-      { s with frames := { fr with kont := k, cleanups := (a, l) :: fr.cleanups, regd := a :: fr.regd } :: rest,
+      { s with frames := { fr with kont := k, cleanups := (a, ckOf l) :: fr.cleanups, regd := a :: fr.regd } :: rest,
                outs := s.outs ++ [.reg fr.id a] } := by
   simp [step, hc, hf, execStep, hk, emit]
 
@@ -160,24 +164,21 @@ theorem popped_only_after_cleanups (s : St) (fr : Frame) (rest : List Frame) (o 
   | nil => rfl
   | cons c cs =>
     exfalso
-    obtain ⟨a, l⟩ := c
-    have : (step specs s).frames = { fr with cleanups := cs, ran := fr.ran ++ [a] } :: rest := by
+    obtain ⟨a, ck⟩ := c
+    have : (step specs s).frames.length = rest.length + 1 := by
       simp only [step, hc, hf, exitStep, hcs]
-      split
-      · rfl
-      · split <;> rfl
-    rw [this] at hp
-    have := congrArg List.length hp
-    simp at this
+      split <;> (try split) <;> simp [emit]
+    rw [hp] at this
+    omega
 
 /-- INVARIANT for every program and every sequence of external events: in every reachable state, every
     frame that has been exited (destroyed, or cancelled and waiting to be destroyed) has NO cleanup left,
     the cleanups that ran are exactly the registered ones most-recent-first — and that is what the
     observable trace says: its `cleanup f _` items are the reverse of its `reg f _` items.  When the
     receiver has been completed, no frame is left on the stack (so all of them satisfy this). -/
-theorem cleanups_run_once_reverse_order_before_parent (p : Prog) (inl : Bool) (evs : List Ev)
+theorem cleanups_run_once_reverse_order_before_parent (p : Prog) (inl st : Bool) (evs : List Ev)
     (hev : ∀ ev ∈ evs, ev ≠ .destroy) :
-    let s := runEvents specs (St.init p inl) evs
+    let s := runEvents specs (St.init p inl st) evs
     (∀ f ∈ s.zombies ++ s.gone,
         f.cleanups = [] ∧ f.ran = f.regd ∧
         cleanupTraceOf f.id s.outs = (regTrace f.id s.outs).reverse) ∧
@@ -186,7 +187,7 @@ theorem cleanups_run_once_reverse_order_before_parent (p : Prog) (inl : Bool) (e
     (s.ctl = .finished → s.frames = []) ∧
     (rootTrace s.outs).length = (if s.ctl = .finished then 1 else 0) := by
   intro s
-  have h : Inv s := (Inv.init p inl).runEvents specs evs hev
+  have h : Inv s := (Inv.init p inl st).runEvents specs evs hev
   refine ⟨?_, ?_, ?_, h.roots⟩
   · intro f hfm
     obtain ⟨h1, h2⟩ := h.retired f hfm
@@ -206,28 +207,28 @@ theorem cleanups_run_once_reverse_order_before_parent (p : Prog) (inl : Bool) (e
 
 /-- during any run: no frame is destroyed twice, a frame on the stack or cancelled has not been destroyed,
     frame ids are never reused -/
-theorem frames_destroyed_at_most_once (p : Prog) (inl : Bool) (evs : List Ev) (hev : ∀ ev ∈ evs, ev ≠ .destroy) :
-    let s := runEvents specs (St.init p inl) evs
+theorem frames_destroyed_at_most_once (p : Prog) (inl st : Bool) (evs : List Ev) (hev : ∀ ev ∈ evs, ev ≠ .destroy) :
+    let s := runEvents specs (St.init p inl st) evs
     (∀ f ∈ s.frames ++ s.zombies, deadCount f.id s.outs = 0) ∧
     (∀ f ∈ s.gone, deadCount f.id s.outs = 1) ∧
     ((s.frames ++ (s.zombies ++ s.gone)).map (·.id)).Nodup ∧
     (s.frames ++ (s.zombies ++ s.gone)).length = s.nextId := by
   intro s
-  have h : Inv s := (Inv.init p inl).runEvents specs evs hev
+  have h : Inv s := (Inv.init p inl st).runEvents specs evs hev
   exact ⟨fun f hf => (h.okLive f hf).dead, fun f hf => (h.okGone f hf).dead, h.nodup, h.count⟩
 
 /-- **At the end** (any program, any events, the receiver has been completed, then the operation state is
     destroyed): every frame that was ever created (`nextId` of them, distinct ids) has been destroyed, the
     trace contains its `frameDead` EXACTLY ONCE, and the cleanups it registered each ran exactly once, in
     reverse registration order. -/
-theorem frames_destroyed_once (p : Prog) (inl : Bool) (evs : List Ev) (hev : ∀ ev ∈ evs, ev ≠ .destroy)
-    (hfin : (runEvents specs (St.init p inl) evs).ctl = .finished) :
-    let s := deliver specs .destroy (runEvents specs (St.init p inl) evs)
+theorem frames_destroyed_once (p : Prog) (inl st : Bool) (evs : List Ev) (hev : ∀ ev ∈ evs, ev ≠ .destroy)
+    (hfin : (runEvents specs (St.init p inl st) evs).ctl = .finished) :
+    let s := deliver specs .destroy (runEvents specs (St.init p inl st) evs)
     s.frames = [] ∧ s.zombies = [] ∧ s.gone.length = s.nextId ∧ (s.gone.map (·.id)).Nodup ∧
     ∀ f ∈ s.gone, f.id < s.nextId ∧ deadCount f.id s.outs = 1 ∧
       cleanupTraceOf f.id s.outs = (regTrace f.id s.outs).reverse := by
-  have h0 : Inv (runEvents specs (St.init p inl) evs) := (Inv.init p inl).runEvents specs evs hev
-  generalize runEvents specs (St.init p inl) evs = s0 at hfin h0 ⊢
+  have h0 : Inv (runEvents specs (St.init p inl st) evs) := (Inv.init p inl st).runEvents specs evs hev
+  generalize runEvents specs (St.init p inl st) evs = s0 at hfin h0 ⊢
   intro s
   have h : Inv s0 := h0
   have hfr : s0.frames = [] := h.fin (by rw [hfin]; rfl)
@@ -275,58 +276,65 @@ theorem frames_destroyed_once (p : Prog) (inl : Bool) (evs : List Ev) (hev : ∀
 /-! ### 5. stop requests -/
 
 /-- inline scheduler: a stop request on the receiver's token, while the innermost task is suspended in
-    `co_await` of leaf `i`, reaches that leaf within the same event: `leafStop i` is the next observation -/
-theorem stop_reaches_current_await (s : St) (i : Nat) (hc : s.ctl = .waitLeaf i)
+    `co_await` of leaf `i`, reaches that leaf within the same event: the thunk's stop callback starts its
+    `schedule()` on the receiver's scheduler (`sched 0`) and `leafStop i` is the next observation -/
+theorem stop_reaches_current_await (s : St) (i : Nat) (hc : s.ctl = .waitLeaf i) (hst : s.stoppable = true)
     (hns : s.rootStopped = false) (hin : s.inlineSched = true) :
-    (s.outs ++ [.leafStop i]) <+: (deliver specs .stop s).outs := by
+    (s.outs ++ [.sched 0, .leafStop i]) <+: (deliver specs .stop s).outs := by
   have h1 : (deliver specs .stop s) =
-      stopOpDone (settle specs (deliverStop specs { s with rootStopped := true, stopOp := true })) := by
-    simp [deliver, onStop, hns, hc, Ctl.callbackRegistered, hin]
-  have h2 : (deliverStop specs { s with rootStopped := true, stopOp := true }).outs = s.outs ++ [.leafStop i] := by
-    simp only [deliverStop, hc]
-    split <;> simp [emit, leafDone] <;> split <;> rfl
-  rw [h1, ← h2]
-  exact (settle_outs_prefix specs _).trans (stopOpDone_outs_prefix _)
+      stopOpDone (settle specs (deliverStop specs (emit { s with rootStopped := true, stopOp := true } (.sched 0)))) := by
+    simp [deliver, onStop, hns, hc, Ctl.callbackRegistered, hin, hst]
+  have h2 := deliverStop_waitLeaf_prefix specs (emit { s with rootStopped := true, stopOp := true } (.sched 0)) i hc
+  rw [h1]
+  have h3 : (emit { s with rootStopped := true, stopOp := true } (.sched 0)).outs ++ [Out.leafStop i]
+      = s.outs ++ [.sched 0, .leafStop i] := by simp [emit]
+  rw [h3] at h2
+  exact (h2.trans (settle_outs_prefix specs _)).trans (stopOpDone_outs_prefix _)
 
 /-- manual scheduler: the stop request is NOT delivered on the requesting context; it is queued on the
-    task's scheduler (nothing observable, the task still waits), and when the scheduler runs it the leaf
-    is notified — task.hpp `inject_stop_request_thunk` -/
+    task's scheduler (only the start of that `schedule()` is observable, the task still waits), and when
+    the scheduler runs it the leaf is notified — task.hpp `inject_stop_request_thunk` -/
 theorem stop_reaches_current_await_via_scheduler (s : St) (i : Nat) (hc : s.ctl = .waitLeaf i)
-    (hns : s.rootStopped = false) (hin : s.inlineSched = false) (hq : s.queue = []) :
+    (hst : s.stoppable = true) (hns : s.rootStopped = false) (hin : s.inlineSched = false) (hq : s.queue = []) :
     let s1 := deliver specs .stop s
-    s1.outs = s.outs ∧ s1.ctl = .waitLeaf i ∧ s1.queue = [.stopReq] ∧
-    (s.outs ++ [.leafStop i]) <+: (deliver specs .run s1).outs := by
+    s1.outs = s.outs ++ [.sched 0] ∧ s1.ctl = .waitLeaf i ∧ s1.queue = [.stopReq] ∧
+    (s.outs ++ [.sched 0, .leafStop i]) <+: (deliver specs .run s1).outs := by
   intro s1
-  have h1 : s1 = { s with rootStopped := true, stopOp := true, queue := [.stopReq] } := by
+  have h1 : s1 = { s with rootStopped := true, stopOp := true, queue := [.stopReq], outs := s.outs ++ [.sched 0] } := by
     show deliver specs .stop s = _
-    simp [deliver, onStop, hns, hc, Ctl.callbackRegistered, hin, hq]
+    simp [deliver, onStop, hns, hc, Ctl.callbackRegistered, hin, hq, hst, emit]
   refine ⟨by rw [h1], by rw [h1]; exact hc, by rw [h1], ?_⟩
   have h2 : deliver specs .run s1 =
-      stopOpDone (settle specs (deliverStop specs { s with rootStopped := true, stopOp := true, queue := [] })) := by
+      stopOpDone (settle specs (deliverStop specs { s with rootStopped := true, stopOp := true, queue := [], outs := s.outs ++ [.sched 0] })) := by
     rw [h1]; simp [deliver, onRun]
-  have h3 : (deliverStop specs { s with rootStopped := true, stopOp := true, queue := [] }).outs = s.outs ++ [.leafStop i] := by
-    simp only [deliverStop, hc]
-    split <;> simp [emit, leafDone] <;> split <;> rfl
-  rw [h2, ← h3]
-  exact (settle_outs_prefix specs _).trans (stopOpDone_outs_prefix _)
+  have h3 := deliverStop_waitLeaf_prefix specs { s with rootStopped := true, stopOp := true, queue := [], outs := s.outs ++ [.sched 0] } i hc
+  rw [h2]
+  have h4 : ({ s with rootStopped := true, stopOp := true, queue := [], outs := s.outs ++ [.sched 0] } : St).outs ++ [Out.leafStop i]
+      = s.outs ++ [.sched 0, .leafStop i] := by simp
+  rw [h4] at h3
+  exact (h3.trans (settle_outs_prefix specs _)).trans (stopOpDone_outs_prefix _)
+
+/-- a receiver without a stop token: stop events do nothing at all (task.hpp connects without the thunk) -/
+theorem unstoppable_receiver_ignores_stop (s : St) (hst : s.stoppable = false) : deliver specs .stop s = s := by
+  simp [deliver, onStop, hst]
 
 /-- a cleanup action is never told about the stop request (it sees an unstoppable token) -/
 theorem stop_does_not_reach_cleanup (s : St) (i : Nat) (o : Outcome) (hc : s.ctl = .waitCleanup i o)
-    (hns : s.rootStopped = false) (hin : s.inlineSched = true) :
-    (deliver specs .stop s).outs = s.outs ∧ (deliver specs .stop s).ctl = .waitCleanup i o := by
+    (hst : s.stoppable = true) (hns : s.rootStopped = false) (hin : s.inlineSched = true) :
+    (deliver specs .stop s).outs = s.outs ++ [.sched 0] ∧ (deliver specs .stop s).ctl = .waitCleanup i o := by
   cases s
-  simp only [] at hc hns hin
-  subst hc hns hin
-  simp only [deliver, onStop, Ctl.callbackRegistered, deliverStop]
-  simp only [Bool.false_eq_true, if_false, Bool.not_true, if_true]
+  simp only [] at hc hns hin hst
+  subst hc hns hin hst
+  simp only [deliver, onStop, Ctl.callbackRegistered, deliverStop, emit]
+  simp only [Bool.false_eq_true, if_false, Bool.not_true, if_true, Bool.or_self, Bool.not_false, Bool.or_false]
   rw [settle_of_halted]
   · simp [stopOpDone]
   · rfl
 
 /-- the receiver is completed at most once, over any run -/
-theorem root_completed_at_most_once (p : Prog) (inl : Bool) (evs : List Ev) (hev : ∀ ev ∈ evs, ev ≠ .destroy) :
-    (rootTrace (runEvents specs (St.init p inl) evs).outs).length ≤ 1 := by
-  have h : Inv (runEvents specs (St.init p inl) evs) := (Inv.init p inl).runEvents specs evs hev
+theorem root_completed_at_most_once (p : Prog) (inl st : Bool) (evs : List Ev) (hev : ∀ ev ∈ evs, ev ≠ .destroy) :
+    (rootTrace (runEvents specs (St.init p inl st) evs).outs).length ≤ 1 := by
+  have h : Inv (runEvents specs (St.init p inl st) evs) := (Inv.init p inl st).runEvents specs evs hev
   rw [h.roots]; split <;> omega
 
 /-- the evaluator never runs out of fuel: `settle` always ends in a quiescent state -/
@@ -336,14 +344,15 @@ theorem settle_quiescent (s : St) : (settle specs s).halted = true := settle_hal
     cases are in corpus/coro/c10.txt and are replayed on the real library by every check run -/
 
 /-- two frames with cleanups; the inner task is suspended on a leaf that completes with done when it is
-    told to stop; `stop` arrives: the leaf is notified, frame 1's cleanups run (3 before 2), then frame
-    0's, then the receiver gets done; the frames are destroyed (inner first) only with the operation -/
+    told to stop; `stop` arrives: the thunk schedules the request (`sched 0`), the leaf is notified, its
+    result hops through the task's scheduler, frame 1's cleanups run (3 before 2), then frame 0's, then the
+    receiver gets done; the frames are destroyed (inner first) only with the operation -/
 example :
     (runEvents (fun _ => ⟨.pending (some .done), false⟩)
       (St.init [.atExit 1 0, .awaitTask [.atExit 2 0, .atExit 3 0, .await 1 false, .ret 1] false, .atExit 4 0, .ret 5] true)
       [.start, .stop, .destroy]).outs =
     [.frameStart 0, .reg 0 1, .frameStart 1, .reg 1 2, .reg 1 3, .leafStart 1 false,
-     .leafStop 1, .cleanup 1 3, .cleanup 1 2, .cleanup 0 1, .root .done,
+     .sched 0, .leafStop 1, .sched 0, .cleanup 1 3, .cleanup 1 2, .cleanup 0 1, .root .done,
      .localsDead 1, .frameDead 1, .localsDead 0, .frameDead 0] := by decide
 
 /-- the child's exception (leaf completed externally with error 7) is caught by the parent's try block:
@@ -352,7 +361,7 @@ example :
     (runEvents (fun _ => ⟨.pending none, false⟩)
       (St.init [.atExit 1 0, .awaitTask [.atExit 2 0, .atExit 3 0, .await 1 false, .ret 1] true, .atExit 4 0, .ret 5] true)
       [.start, .complete 1 (.error 7), .destroy]).outs =
-    [.frameStart 0, .reg 0 1, .frameStart 1, .reg 1 2, .reg 1 3, .leafStart 1 false,
+    [.frameStart 0, .reg 0 1, .frameStart 1, .reg 1 2, .reg 1 3, .leafStart 1 false, .sched 0,
      .localsDead 1, .cleanup 1 3, .cleanup 1 2, .frameDead 1, .reg 0 4,
      .localsDead 0, .cleanup 0 4, .cleanup 0 1, .frameDead 0, .root (.value 112)] := by decide
 
@@ -368,5 +377,15 @@ example :
     let sp : Nat → LeafSpec := fun _ => ⟨.pending none, false⟩
     let s := runEvents sp (St.init [.await 1 false, .ret 1] false) [.start, .complete 1 (.value 4)]
     s.ctl = .waitHop ∧ rootTrace (deliver sp .run s).outs = [.value 5] := by decide
+
+/-- `co_await schedule(2)` (manual schedulers): the task moves to scheduler 2, its later hops use scheduler 2,
+    and at exit — after the cleanup registered later (2), before the one registered earlier (1) — the
+    library's own cleanup takes it back to scheduler 0 (`reg`/`cleanup` with label 0 are that internal cleanup) -/
+example :
+    (runEvents (fun _ => ⟨.pending none, false⟩)
+      (St.init [.atExit 1 0, .resched 2, .atExit 2 0, .await 1 false, .ret 1] false)
+      [.start, .run, .complete 1 (.value 3), .run, .run]).outs =
+    [.frameStart 0, .reg 0 1, .reg 0 0, .sched 2, .reg 0 2, .leafStart 1 false, .sched 2,
+     .localsDead 0, .cleanup 0 2, .cleanup 0 0, .sched 0, .cleanup 0 1, .frameDead 0, .root (.value 4)] := by decide
 
 end Unifex.Props.C10
